@@ -48,12 +48,12 @@ pub fn plan(id: usize) -> Option<Plan> {
         5 => p(&[5], &[Conn, Sweep, Conn, Reuse], GenOpts { kinds: MSG3, ..d }, 750_000, 12_000_000, "exploration"),
         6 => p(&[6], &[Conn, Sweep], GenOpts { kinds: REQ, ..d }, 750_000, 12_000_000, "exploration"),
         7 => p(&[7], &[Conn, Sweep], GenOpts { kinds: RESP, ..d }, 750_000, 12_000_000, "exploration"),
-        8 => p(&[8], &[Conn, Sweep], GenOpts { kinds: MSG3, cfg_mask: 4 | 8, ..d }, 750_000, 12_000_000, "exploration"),
+        8 => p(&[8], &[Conn, Sweep, Conn, Sweep, Adversarial], GenOpts { kinds: MSG3, cfg_mask: 4 | 8, ..d }, 750_000, 12_000_000, "exploration"),
         9 => p(&[9], &[Conn, Sweep, Sweep], GenOpts { kinds: CHUNKY, chunk_heavy: true, ..d }, 750_000, 12_000_000, "exploration"),
-        10 => p(&[10], &[Conn, Sweep, Conn, Sweep, Adversarial], GenOpts { kinds: MSG3, ..d }, 750_000, 12_000_000, "exploration"),
+        10 => p(&[10], &[Conn, Sweep, Conn, Sweep, Adversarial, Reuse], GenOpts { kinds: MSG3, ..d }, 750_000, 12_000_000, "exploration"),
         11 => p(&[11], &[Sweep, Sweep, Conn], GenOpts { kinds: ALL, ..d }, 150_000, 3_000_000, "exploration"),
         13 => p(&[13], &[Conn, Sweep, Adversarial], GenOpts { kinds: ALL, ..d }, 400_000, 8_000_000, "exploration"),
-        14 => p(&[14], &[Conn, Sweep], GenOpts { kinds: RR, ..d }, 750_000, 12_000_000, "exploration"),
+        14 => p(&[14], &[Conn, Sweep, Conn, Sweep, Adversarial], GenOpts { kinds: RR, ..d }, 750_000, 12_000_000, "exploration"),
         15 => p(&[15], &[Conn, Sweep], GenOpts { kinds: RR, ..d }, 250_000, 5_000_000, "exploration"),
         16 => p(&[16], &[Conn, Sweep], GenOpts { kinds: RR, ..d }, 375_000, 8_000_000, "exploration"),
         17 => p(&[17], &[Conn, Sweep, Reuse, Sweep, Adversarial], GenOpts { kinds: MSG3, ..d }, 300_000, 6_000_000, "fault_enumeration"),
